@@ -224,10 +224,8 @@ func runC13Gosched(rc *sk.RunCtx) {
 		return
 	}
 	defer mw.stopAll()
-	if noiseutil.EncryptLockNeeded != fipsMode {
-		rc.HarnessError("EncryptLockNeeded=%v but fips=%v", noiseutil.EncryptLockNeeded, fipsMode)
-		return
-	}
+	// (no assumption about how nebula decides to serialise senders in FIPS mode: if it does not, the increasing-nonce
+	// AEAD refuses an out-of-order counter and the task's panic is the violation)
 	A := mw.nodes[0]
 	ci := ha.ConnectionState
 	floor := ci.messageCounter.Load() // everything consumed so far (handshake + setup traffic)
